@@ -67,6 +67,7 @@ def method_row(recv, im, ret, retleaf, args):
 
 def wf(ti, im, ret):
     """the supported grammar: io::Error results only as integer codes, u8 errors only as CResult"""
+    im = im & 3
     is_res = ret in (6, 7, 11, 12)
     active = is_res and (im == 1 or (im == 0 and ti == 1))
     if ret == 11:
@@ -89,6 +90,14 @@ def ir_cases(rng, tier, only_wf=True):
                     for args in shapes:
                         for lf in leaves:
                             cases.append("1 %d | %s" % (ti, " ".join(map(str, method_row(recv, im, ret, lf, args)))))
+    # default bodies / explicit lifetime generics on the method (flags +4 / +8 of the intmode field) do not change the glue
+    for flags in (4, 8, 12):
+        for recv in (0, 1, 2):
+            for ret in (0, 1, 2, 6):
+                for args in ([], [(0, 2)], [(3, 0), (1, 0)]):
+                    if ret == 2 and (recv == 2 or args):
+                        continue
+                    cases.append("1 1 | %s" % " ".join(map(str, method_row(recv, flags, ret, 2, args))))
     n_ex = len(cases)
     nrand = 150 if tier == "quick" else 3000
     for _ in range(nrand):
@@ -100,6 +109,8 @@ def ir_cases(rng, tier, only_wf=True):
                 if wf(ti, im, ret):
                     break
             args = [(rng.below(12), rng.below(9)) for _ in range(rng.range(0, 4))]
+            if rng.chance(1, 4):
+                im += rng.choice([4, 8, 12])
             rows.append(method_row(recv, im, ret, rng.below(9), args))
         cases.append("1 %d | %s" % (ti, " ; ".join(" ".join(map(str, r)) for r in rows)))
     return cases, {"ir_exhaustive_single_method": n_ex, "ir_random_multi_method": nrand}
@@ -134,7 +145,8 @@ def grp_cases(rng, tier):
 
 # ------------------------------------------------------------------------------------------ behavioural
 REF_OPS = [[0, 5, -3], [6, 2], [6, -1], [6, 5], [7, 4], [7, 3], [7, -1], [8, 200], [8, 7], [9, 7], [10, 0], [10, 1], [10, 3], [12, 255, 70000, -5], [13], [14],
-           [16, 5], [16, -2], [18, 4], [18, -9], [19, 0], [19, 1], [19, 13], [19, -7], [19, 65535], [20, 3], [20, -1], [21, 9]]
+           [16, 5], [16, -2], [18, 4], [18, -9], [19, 0], [19, 1], [19, 13], [19, -7], [19, 65535], [20, 3], [20, -1], [21, 9],
+           [22, 4], [22, 7], [23, 21], [24], [25, 2], [25, 0]]
 MUT_OPS = [[1, 5], [1, 0], [1, 24], [2, 3], [2, 0], [3, 4], [3, 0], [4, 6], [4, 0], [5, 0], [5, 1], [5, 2], [5, 3], [5, 4], [11, 0], [11, 4], [15], [17, 2], [17, 3]]
 
 
@@ -235,8 +247,18 @@ def ir_monitor(l, impl_rows):
     if len(rows) != len(methods):
         return ["%d vtable rows for %d methods" % (len(rows), len(methods))]
     for k, (m, r) in enumerate(zip(methods, rows)):
+        try:
+            fails.extend(_ir_monitor_row(k, m, r))
+        except (ValueError, IndexError):
+            fails.append("method %d: expansion not recognised" % k)
+    return fails[:4]
+
+
+def _ir_monitor_row(k, m, r):
+    fails = []
+    if True:
         if len(r) < 8:
-            fails.append("method %d: expansion not recognised" % k); continue
+            return ["method %d: expansion not recognised" % k]
         pos, reprc, abic, recv, nc = r[0:5]
         if pos != k: fails.append("method %d sits in vtable slot %d (declaration order broken)" % (k, pos))
         if reprc != 1: fails.append("vtable struct is not #[repr(C)]")
@@ -258,6 +280,7 @@ def ir_monitor(l, impl_rows):
         i_fetch, i_cont, i_guard, i_first, i_n = r[i:i + 5]; i += 5
         i_convs = r[i:i + i_n]; i += i_n
         i_okout, i_tail, i_unknown = r[i:i + 3]
+        if i_unknown == 7: return fails + ["the trait re-implementation on the opaque object has no method m%d: calls through the object run the trait's default body instead of the vtable slot" % k]
         if i_fetch != 1: fails.append("trait re-implementation of m%d does not fetch vtable slot m%d" % (k, k))
         if i_cont != m[0] or i_first != 1: fails.append("trait re-implementation of m%d passes the container in form %d for receiver kind %d" % (k, i_cont, m[0]))
         if (m[0] == 2) != (i_guard == 1): fails.append("context guard of m%d: %d for receiver kind %d" % (k, i_guard, m[0]))
@@ -267,7 +290,7 @@ def ir_monitor(l, impl_rows):
         has_okout_param = 11 in ctys[0::2]
         if has_okout_param != (w_tail == 3) or has_okout_param != (i_tail == 5) or has_okout_param != (i_okout == 1):
             fails.append("m%d: ok_out parameter=%s wrapper tail=%d decoder tail=%d slot passed=%d do not belong together" % (k, has_okout_param, w_tail, i_tail, i_okout))
-    return fails[:4]
+    return fails
 
 
 # ------------------------------------------------------------------------------------------ rustc's FFI lints as oracle
